@@ -276,7 +276,7 @@ def growth_replay(ctx: Ctx, rng):
     ctx.notes["buffered_behaviours_exported"] = len(beh)
     if not beh:
         raise tlc.MachineryError("no behaviours exported from the buffered model")
-    cap = 2500 if q else 60000
+    cap = 2500 if q else 40000
     if len(beh) > cap:
         beh = rng.sample(beh, cap)
     ctx.notes["buffered_behaviours_replayed"] = len(beh)
